@@ -371,10 +371,11 @@ def main(tier):
     deadline = time.time() + (1200 if tier == "quick" else 3000) * max(1, 16 // jobs)
     SECOND_OPINION_PER_HARNESS[0] = 3 if tier == "quick" else 8
     res = {}
-    # harnesses with equal fan-out depth are explored together (one worker pool per group)
-    for depth in sorted(set(h.depth for h in hs)):
-        grp = {h.name: make_body(h, L.new_interp) for h in hs if h.depth == depth}
-        res.update(run_harnesses(grp, depth=depth, query_timeout_ms=120000, deadline=deadline))
+    for h in hs:
+        try:
+            res.update(run_harnesses({h.name: make_body(h, L.new_interp)}, depth=h.depth, query_timeout_ms=180000, deadline=deadline))
+        except Inconclusive as e:
+            raise Inconclusive("%s: %s" % (h.name, e))
 
     rep = common.Reporter(PID)
     obligations = discharged = paths = queries = vq = 0
